@@ -14,45 +14,77 @@ import (
 
 var globalCache sync.Map
 
-type Solver struct {
-	cmd     *exec.Cmd
-	in      io.WriteCloser
-	out     *bufio.Reader
-	cache   map[string]string
-	Queries int
-	CacheHits int
-	Sat     int
-	Unsat   int
-	Unknown int
-	Time    time.Duration
-	log     *os.File
+// proc is one solver process driven over pipes (kept alive, push/pop per query).
+type proc struct {
+	kind string // "cvc5" | "z3" | "z3-new"
+	cmd  *exec.Cmd
+	in   io.WriteCloser
+	out  *bufio.Reader
 }
 
-var solverBin = func() string {
-	if b := os.Getenv("GOSMT_SOLVER"); b != "" {
-		return b
+func startProc(kind string) *proc {
+	var cmd *exec.Cmd
+	switch kind {
+	case "cvc5":
+		cmd = exec.Command("cvc5", "--incremental", "--strings-exp", "--produce-models", "--tlimit-per=10000", "--lang=smt2")
+	default:
+		cmd = exec.Command(kind, "-in")
 	}
-	return "z3"
-}()
-
-func init() {
-	out, _ := exec.Command(solverBin, "--version").Output()
-	solverVer = strings.TrimSpace(string(out))
-}
-
-func NewSolver() *Solver {
-	cmd := exec.Command(solverBin, "-in")
 	in, _ := cmd.StdinPipe()
 	outp, _ := cmd.StdoutPipe()
 	cmd.Stderr = cmd.Stdout
 	if err := cmd.Start(); err != nil {
 		panic(err)
 	}
-	s := &Solver{cmd: cmd, in: in, out: bufio.NewReader(outp), cache: map[string]string{}}
-	fmt.Fprintln(in, "(set-option :produce-models true)")
-	fmt.Fprintln(in, "(set-option :timeout 10000)")
+	p := &proc{kind: kind, cmd: cmd, in: in, out: bufio.NewReader(outp)}
+	if kind == "cvc5" {
+		fmt.Fprintln(in, "(set-logic ALL)")
+	} else {
+		fmt.Fprintln(in, "(set-option :produce-models true)")
+		fmt.Fprintln(in, "(set-option :timeout 10000)")
+	}
+	return p
+}
+
+// Solver is the per-worker solver front end: a primary back end (cvc5, which
+// is by far the fastest of the three on the string constraints these harnesses
+// produce) and a secondary one (z3 5.1) that is asked when the primary answers
+// unknown or errors. Any answer that is not sat/unsat from both is "unknown".
+type Solver struct {
+	primary   *proc
+	secondary *proc
+	Queries   int
+	CacheHits int
+	Sat       int
+	Unsat     int
+	Unknown   int
+	Fallbacks int
+	Time      time.Duration
+	log       *os.File
+}
+
+var primaryKind, secondaryKind = func() (string, string) {
+	if b := os.Getenv("GOSMT_SOLVER"); b != "" {
+		if b == "cvc5" {
+			return "cvc5", "z3-new"
+		}
+		return b, "cvc5"
+	}
+	return "cvc5", "z3-new"
+}()
+
+func init() {
+	out, _ := exec.Command("cvc5", "--version").Output()
+	v := strings.SplitN(string(out), "\n", 2)[0]
+	out2, _ := exec.Command("z3-new", "--version").Output()
+	out3, _ := exec.Command("z3", "--version").Output()
+	solverVer = fmt.Sprintf("primary=%s secondary=%s [%s | z3-new: %s | z3: %s]", primaryKind, secondaryKind, strings.TrimSpace(v), strings.TrimSpace(string(out2)), strings.TrimSpace(string(out3)))
+}
+
+func NewSolver() *Solver {
+	s := &Solver{primary: startProc(primaryKind)}
 	if f := os.Getenv("GOSMT_LOG"); f != "" {
-		s.log, _ = os.Create(f)
+		s.log, _ = os.OpenFile(f, os.O_CREATE|os.O_APPEND|os.O_WRONLY, 0o644)
 	}
 	return s
 }
@@ -127,6 +159,7 @@ func (s *Solver) CheckFocus(pc []*Term, focus *Term) string {
 func (s *Solver) Check(asserts []*Term, wantModel bool) (string, map[string]string) {
 	vars := map[string]*Term{}
 	var body strings.Builder
+	seen := map[string]bool{}
 	for _, a := range asserts {
 		if a.Const {
 			if !a.B {
@@ -134,6 +167,10 @@ func (s *Solver) Check(asserts []*Term, wantModel bool) (string, map[string]stri
 			}
 			continue
 		}
+		if seen[a.String()] {
+			continue
+		}
+		seen[a.String()] = true
 		a.vars(vars)
 		fmt.Fprintf(&body, "(assert %s)\n", a.String())
 	}
@@ -158,21 +195,17 @@ func (s *Solver) Check(asserts []*Term, wantModel bool) (string, map[string]stri
 	if s.log != nil {
 		fmt.Fprintf(s.log, "; query %d\n(push 1)\n%s(check-sat)\n(pop 1)\n", s.Queries, key)
 	}
-	fmt.Fprintf(s.in, "(push 1)\n%s(check-sat)\n", key)
-	res := s.readLine()
+	res, model := s.primary.ask(key, names, vars, wantModel)
+	if res != "sat" && res != "unsat" {
+		if s.secondary == nil {
+			s.secondary = startProc(secondaryKind)
+		}
+		s.Fallbacks++
+		res, model = s.secondary.ask(key, names, vars, wantModel)
+	}
 	if s.log != nil {
 		fmt.Fprintf(s.log, "; -> %s in %v\n", res, time.Since(start))
 	}
-	var model map[string]string
-	if res == "sat" && wantModel {
-		model = map[string]string{}
-		for _, n := range names {
-			fmt.Fprintf(s.in, "(get-value (|%s|))\n", n)
-			l := s.readSexp()
-			model[n] = decodeModelValue(l, vars[n])
-		}
-	}
-	fmt.Fprintln(s.in, "(pop 1)")
 	s.Time += time.Since(start)
 	switch res {
 	case "sat":
@@ -189,7 +222,49 @@ func (s *Solver) Check(asserts []*Term, wantModel bool) (string, map[string]stri
 	return res, model
 }
 
-func (s *Solver) readLine() string {
+// CrossCheck asks the other back end the same question (thorough tier).
+func (s *Solver) CrossCheck(asserts []*Term) string {
+	vars := map[string]*Term{}
+	var body strings.Builder
+	for _, a := range asserts {
+		if a.Const {
+			if !a.B {
+				return "unsat"
+			}
+			continue
+		}
+		a.vars(vars)
+		fmt.Fprintf(&body, "(assert %s)\n", a.String())
+	}
+	names := sortedKeys(vars)
+	var decl strings.Builder
+	for _, n := range names {
+		fmt.Fprintf(&decl, "(declare-const |%s| %s)\n", n, sortDecl(vars[n]))
+	}
+	if s.secondary == nil {
+		s.secondary = startProc(secondaryKind)
+	}
+	r, _ := s.secondary.ask(decl.String()+body.String(), names, vars, false)
+	return r
+}
+
+func (p *proc) ask(key string, names []string, vars map[string]*Term, wantModel bool) (string, map[string]string) {
+	fmt.Fprintf(p.in, "(push 1)\n%s(check-sat)\n", key)
+	res := p.readLine()
+	var model map[string]string
+	if res == "sat" && wantModel {
+		model = map[string]string{}
+		for _, n := range names {
+			fmt.Fprintf(p.in, "(get-value (|%s|))\n", n)
+			l := p.readSexp()
+			model[n] = decodeModelValue(l, vars[n])
+		}
+	}
+	fmt.Fprintln(p.in, "(pop 1)")
+	return res, model
+}
+
+func (s *proc) readLine() string {
 	for {
 		l, err := s.out.ReadString('\n')
 		if err != nil {
@@ -202,20 +277,30 @@ func (s *Solver) readLine() string {
 		if strings.HasPrefix(l, "(error") {
 			return "error:" + l
 		}
-		return l
+		if l == "sat" || l == "unsat" || l == "unknown" || l == "timeout" {
+			return l
+		}
+		// warnings and other chatter are skipped
 	}
 }
 
-func (s *Solver) readSexp() string {
+func (s *proc) readSexp() string {
 	var b strings.Builder
 	depth := 0
 	started := false
+	inStr := false
 	for {
 		c, err := s.out.ReadByte()
 		if err != nil {
 			return b.String()
 		}
 		b.WriteByte(c)
+		if c == '"' {
+			inStr = !inStr
+		}
+		if inStr {
+			continue
+		}
 		if c == '(' {
 			depth++
 			started = true
@@ -228,7 +313,15 @@ func (s *Solver) readSexp() string {
 	}
 }
 
-func (s *Solver) Close() { s.in.Close(); s.cmd.Wait() }
+func (s *Solver) Close() {
+	for _, p := range []*proc{s.primary, s.secondary} {
+		if p != nil {
+			p.in.Close()
+			p.cmd.Process.Kill()
+			p.cmd.Wait()
+		}
+	}
+}
 
 // CheckAll solves the whole path condition component by component (constraint
 // independence) and returns the union of the models.
@@ -289,8 +382,10 @@ func decodeModelValue(sexp string, v *Term) string {
 	s := strings.TrimSpace(sexp)
 	s = strings.TrimPrefix(s, "((")
 	s = strings.TrimSuffix(s, "))")
-	if k := strings.Index(s, "| "); k >= 0 && strings.HasPrefix(s, "|") {
-		s = s[k+2:]
+	if strings.HasPrefix(s, "|") {
+		if k := strings.Index(s[1:], "|"); k >= 0 {
+			s = s[k+2:]
+		}
 	} else if k := strings.Index(s, " "); k >= 0 {
 		s = s[k+1:]
 	}
